@@ -604,10 +604,13 @@ func (sched *StdScheduler) calculateNextTick() time.Duration {
 	scheduledJob, err := sched.queue.Head()
 	if err != nil {
 		if errors.Is(err, ErrQueueEmpty) {
+			// the queue reported a size but has no head: look again after
+			// the retry interval (or as soon as the queue is modified)
+			// rather than at once
 			sched.logger.Debug("Queue is empty")
-			return nextTickDuration
+		} else {
+			sched.logger.Error("Failed to calculate next tick", "error", err)
 		}
-		sched.logger.Error("Failed to calculate next tick", "error", err)
 		return sched.opts.RetryInterval
 	}
 
